@@ -55,7 +55,7 @@ def expectedDiskfsTail : List String :=
    "if err = disk.MkdirAll(filepath.Dir(v1), filesystem.DefaultUnixDirMode); err != nil => return err",
    "return ioutil.WriteFile(v1, p2, p3)",
    "Writer:",
-   "if v1, err = os.OpenFile(recv.path + p1, os.O_WRONLY | os.O_CREATE | os.O_TRUNC, filesystem.DefaultUnixFileMode); err != nil => return nil, err",
+   "if v1, err = os.OpenFile(recv.path + p1, os.O_CREATE | os.O_TRUNC | os.O_WRONLY, filesystem.DefaultUnixFileMode); err != nil => return nil, err",
    "return NewFileHandler(v1), nil"]
 
 theorem tie_diskfs_host_calls : diskfsTail = expectedDiskfsTail := by decide
@@ -121,20 +121,20 @@ def expectedCopyDirectory : List String :=
    "else",
    "if !v1.IsDir() => return error",
    "end",
-   "if v2 = MkdirAll(filepath.Dir(p2), filesystem.DefaultUnixDirMode); v2 != nil => return v2",
-   "if v2 = filepath.Walk(p1, func); v2 != nil => return v2",
-   "func(v3, v1, v2)",
-   "if v2 != nil => return v2",
-   "v4, v2 = filepath.Rel(p1, v3)",
-   "if v2 != nil => return v2",
-   "v5 = append(v5, v6{v4, v1.IsDir()})",
+   "if v3 = MkdirAll(filepath.Dir(p2), filesystem.DefaultUnixDirMode); v3 != nil => return v3",
+   "if v4 = filepath.Walk(p1, func); v4 != nil => return v4",
+   "func(a1, a2, a3)",
+   "if a3 != nil => return a3",
+   "v5, a3 = filepath.Rel(p1, a1)",
+   "if a3 != nil => return a3",
+   "v6 = append(v6, v7{v5, a2.IsDir()})",
    "return nil",
    "end func",
-   "range _, v7 = v5",
-   "if v7.isDir",
-   "if v2 = MkdirAll(filepath.Join(p2, v7.subPath), filesystem.DefaultUnixDirMode); v2 != nil => return v2",
+   "range _, v8 = v6",
+   "if v8.isDir",
+   "if v9 = MkdirAll(filepath.Join(p2, v8.subPath), filesystem.DefaultUnixDirMode); v9 != nil => return v9",
    "else",
-   "if v2 = CopyFile(filepath.Join(p1, v7.subPath), filepath.Join(p2, v7.subPath)); v2 != nil => return v2",
+   "if v10 = CopyFile(filepath.Join(p1, v8.subPath), filepath.Join(p2, v8.subPath)); v10 != nil => return v10",
    "end",
    "end",
    "return nil"]
@@ -150,21 +150,31 @@ def pos (s : String) (l : List String) : Nat := l.idxOf s
 /-- the extracted body, under a short name -/
 abbrev l : List String := diskCopyDirectory
 
-/-- THE REPAIR 5c7294d: the walk over the source only COLLECTS (its callback appends to the slice `v5` and
-does nothing else to the host); the loop that makes directories and copies files ranges over that slice and
-starts after the walk has returned.  A copy into the source's own subtree therefore never sees its own output
-(`DiskFS`: "`filepath.Walk` collecting … then per entry"; before the repair the walk never ended). -/
+/-- the two statements of the copying loop that touch the destination -/
+def mkdirLine : String :=
+  "if v9 = MkdirAll(filepath.Join(p2, v8.subPath), filesystem.DefaultUnixDirMode); v9 != nil => return v9"
+def copyLine : String :=
+  "if v10 = CopyFile(filepath.Join(p1, v8.subPath), filepath.Join(p2, v8.subPath)); v10 != nil => return v10"
+
+/-- THE REPAIR 5c7294d: the walk over the source only COLLECTS (its callback appends to the slice `v6` and
+does nothing else: its whole body is pinned here); the loop that makes directories (`mkdirLine`) and copies
+files (`copyLine`) ranges over that slice and starts after the walk has returned.  A copy into the source's own
+subtree therefore never sees its own output (`DiskFS`: "`filepath.Walk` collecting … then per entry"; before the
+repair the walk never ended). -/
 theorem tie_copydirectory_lists_then_copies :
-    l.contains "v5 = append(v5, v6{v4, v1.IsDir()})" = true
-    ∧ pos "func(v3, v1, v2)" l < pos "end func" l
-    ∧ pos "end func" l < pos "range _, v7 = v5" l
-    ∧ pos "range _, v7 = v5" l <
-        pos "if v2 = MkdirAll(filepath.Join(p2, v7.subPath), filesystem.DefaultUnixDirMode); v2 != nil => return v2" l
-    ∧ pos "range _, v7 = v5" l <
-        pos "if v2 = CopyFile(filepath.Join(p1, v7.subPath), filepath.Join(p2, v7.subPath)); v2 != nil => return v2" l
-    ∧ ((l.take (pos "end func" l)).drop (pos "func(v3, v1, v2)" l)).all
-        (fun s => s != "if v2 = MkdirAll(filepath.Join(p2, v7.subPath), filesystem.DefaultUnixDirMode); v2 != nil => return v2"
-          && s != "if v2 = CopyFile(filepath.Join(p1, v7.subPath), filepath.Join(p2, v7.subPath)); v2 != nil => return v2") = true := by
+    l.contains "v6 = append(v6, v7{v5, a2.IsDir()})" = true
+    ∧ pos "func(a1, a2, a3)" l < pos "end func" l
+    ∧ pos "end func" l < pos "range _, v8 = v6" l
+    ∧ pos "range _, v8 = v6" l < pos mkdirLine l
+    ∧ pos "range _, v8 = v6" l < pos copyLine l
+    ∧ pos mkdirLine l < l.length ∧ pos copyLine l < l.length
+    ∧ ((l.take (pos "end func" l)).drop (pos "func(a1, a2, a3)" l)) =
+        ["func(a1, a2, a3)",
+         "if a3 != nil => return a3",
+         "v5, a3 = filepath.Rel(p1, a1)",
+         "if a3 != nil => return a3",
+         "v6 = append(v6, v7{v5, a2.IsDir()})",
+         "return nil"] := by
   decide
 
 /-- `disk.CopyFile`, whole body: `os.Open(src)`, refuse a directory (`Stat().IsDir()`), `os.Create(dst)`
@@ -175,18 +185,18 @@ theorem tie_disk_copyfile_body :
       ["v1, v2 = os.Open(p1)",
        "if v2 != nil => return v2",
        "defer v1.Close()",
-       "if v3, v2 = v1.Stat(); v2 != nil",
-       "return v2",
+       "if v3, v4 = v1.Stat(); v4 != nil",
+       "return v4",
        "else",
        "if v3.IsDir() => return error",
        "end",
-       "v4, v2 = os.Create(p2)",
+       "v5, v2 = os.Create(p2)",
        "if v2 != nil => return v2",
-       "if _, v2 = io.Copy(v4, v1); v2 != nil",
-       "v4.Close()",
-       "return v2",
+       "if _, v6 = io.Copy(v5, v1); v6 != nil",
+       "v5.Close()",
+       "return v6",
        "end",
-       "return v4.Close()"] := by
+       "return v5.Close()"] := by
   decide
 
 /-- the three predicates are `os.Stat` (links followed) + `IsDir`; `MkdirAll` is `os.MkdirAll` -/
